@@ -501,3 +501,43 @@ def result_influences(fn: Func) -> set[str]:
             if s not in seen:
                 work.append(s)
     return seen
+
+
+def inline_locals(fn_node: ast.AST, expr: ast.expr, depth: int = 4) -> ast.expr:
+    """`expr` with every local temporary replaced by its definition: a Name that is assigned exactly once in the function
+    (plain `x = <expr>` / `x: T = <expr>`, no augmented assignment, not a parameter, not a loop target) is substituted, recursively."""
+    import copy
+
+    defs: dict[str, list[ast.expr]] = {}
+    bad: set[str] = set()
+    for n in own_nodes(fn_node):
+        if isinstance(n, ast.Assign) and len(n.targets) == 1 and isinstance(n.targets[0], ast.Name):
+            defs.setdefault(n.targets[0].id, []).append(n.value)
+        elif isinstance(n, ast.AnnAssign) and isinstance(n.target, ast.Name) and n.value is not None:
+            defs.setdefault(n.target.id, []).append(n.value)
+        elif isinstance(n, (ast.AugAssign, ast.For, ast.comprehension, ast.NamedExpr)):
+            for x in ast.walk(n.target if not isinstance(n, ast.NamedExpr) else n.target):
+                if isinstance(x, ast.Name):
+                    bad.add(x.id)
+        elif isinstance(n, ast.Assign):
+            for t in n.targets:
+                for x in ast.walk(t):
+                    if isinstance(x, ast.Name):
+                        bad.add(x.id)
+    single = {k: v[0] for k, v in defs.items() if len(v) == 1 and k not in bad}
+
+    class Sub(ast.NodeTransformer):
+        def __init__(self, d: int) -> None:
+            self.d = d
+
+        def visit_Name(self, node: ast.Name) -> ast.AST:  # noqa: N802
+            if isinstance(node.ctx, ast.Load) and node.id in single and self.d > 0:
+                return Sub(self.d - 1).visit(copy.deepcopy(single[node.id]))
+            return node
+
+    out = Sub(depth).visit(copy.deepcopy(expr))
+    ast.fix_missing_locations(out)
+    for sub in ast.walk(out):
+        for ch in ast.iter_child_nodes(sub):
+            ch._parent = sub  # type: ignore[attr-defined]
+    return out
